@@ -22,10 +22,12 @@ fn space_for(tier: Tier) -> (Space, usize) {
         Tier::Quick => {
             s.ast("K", 3, 32).ast("Q", 2, 32);
             s.ast_range("K", 4, 4, 32, 2);
+            s.ast_range("ALT", 1, 3, 16, 4).ast_range("LP", 1, 3, 16, 5).ast_range("FX", 1, 4, 16, 6);
             (s, 3)
         }
         Tier::Thorough => {
             s.ast("K", 4, 32).ast("Q", 3, 32).ast("CL", 3, 32);
+            s.ast_range("ALT", 1, 3, 16, 4).ast_range("LP", 1, 4, 16, 5).ast_range("FX", 1, 5, 16, 6);
             (s, 4)
         }
     }
@@ -66,7 +68,8 @@ fn parse_quant(q: &str) -> Option<(u32, Option<u32>, bool)> {
 /// Render `g` as an operand of concatenation / quantifier: always atomic.
 fn atomic(sc: &Scope, g: &G) -> String {
     match g {
-        G::Leaf(_) | G::Cap(_) => sc.render(g),
+        G::Leaf(i) if gen::leaf_is_atomic(sc.leaves[*i]) => sc.render(g),
+        G::Cap(_) => sc.render(g),
         _ => format!("(?:{})", sc.render(g)),
     }
 }
@@ -210,6 +213,11 @@ fn render_with(sc: &Scope, g: &G, counter: &mut usize, target: usize, with: &str
             let operand_is_target = *counter == target;
             match **a {
                 G::Un(..) if !operand_is_target => {
+                    out.push_str("(?:");
+                    render_with(sc, a, counter, target, with, 0, out);
+                    out.push(')');
+                }
+                G::Leaf(i) if !operand_is_target && !gen::leaf_is_atomic(sc.leaves[i]) => {
                     out.push_str("(?:");
                     render_with(sc, a, counter, target, with, 0, out);
                     out.push(')');
